@@ -13,6 +13,7 @@ Capped clause ("both natural parameters are scaled by one factor"): FALSE of the
 `C20_capped_counterexample` / `C20_capped_statement_false`.
 -/
 import TsdateVerif.Proofs.EPStarStep
+import TsdateVerif.Proofs.EPGen
 
 namespace Tsdate.C20
 open Tsdate Tsdate.EP
@@ -25,6 +26,31 @@ returns `(a + δy, b + δμ)` (whenever the resulting gamma is proper; otherwise
 theorem star_update (cav lik : α × α) (δ : α) (hs : 0 < cav.1 + 1 + δ * lik.1) (hr : 0 < δ * lik.2 + cav.2) :
     rootwardT0 cav (dampLik δ lik) = some (cav.1 + δ * lik.1, cav.2 + δ * lik.2) :=
   rootwardT0_conj cav (dampLik δ lik) hs hr
+
+/-- The same for the kernel **regenerated from the current source** (`Gen/Kernels.rootward_projection`, rewritten
+by the translator on every run): at child age 0 it returns `(a + δy, b + δμ)` and does not skip.  (`hfin`: every
+number is finite, as in exact arithmetic.) -/
+theorem star_update_generated (F : Tsdate.Kernels.SpecFns α) (hfin : ∀ v, F.isFinite v = true)
+    (cav lik : α × α) (δ : α) (hs : 0 < cav.1 + 1 + δ * lik.1) (hr : 0 < δ * lik.2 + cav.2) :
+    (Tsdate.Gen.Kernels.rootward_projection F ((0 : Nat) : α) cav (dampLik δ lik)).2 =
+        (cav.1 + δ * lik.1, cav.2 + δ * lik.2) ∧
+      (Tsdate.Gen.Kernels.rootward_projection F ((0 : Nat) : α) cav (dampLik δ lik)).1.isNone = false := by
+  obtain ⟨h1, h2⟩ := gen_rootward_t0 F hfin cav (dampLik δ lik)
+  have h3 := star_update cav lik δ hs hr
+  rw [h3] at h1 h2
+  refine ⟨h1, ?_⟩
+  cases h : (Tsdate.Gen.Kernels.rootward_projection F ((0 : Nat) : α) cav (dampLik δ lik)).1.isNone
+  · rfl
+  · exact absurd (h2.1 h) (by simp)
+
+/-- The hand-written `damp`, `rescale` and conjugate projection used in the star theorems are the regenerated
+kernels `_damp`, `_rescale`, `rootward_projection(0, ·, ·)`. -/
+theorem model_is_generated (F : Tsdate.Kernels.SpecFns α) (hfin : ∀ v, F.isFinite v = true) :
+    (∀ x y s, Tsdate.Gen.Kernels._damp F x y s = damp x y s) ∧
+    (∀ x s, Tsdate.Gen.Kernels._rescale F x s = rescale x s) ∧
+    (∀ cav lik, (Tsdate.Gen.Kernels.rootward_projection F ((0 : Nat) : α) cav lik).2 =
+      (rootwardT0 cav lik).getD cav) :=
+  ⟨gen_damp_eq F, gen_rescale_eq F, fun cav lik => (gen_rootward_t0 F hfin cav lik).1⟩
 
 /-- First visit of an edge whose parent has posterior `x` (zero, or proper with shape ≥ 1): `_damp` returns 1,
 the projection returns `x + (y, μ)` and the new message is `(y, μ)`. -/
